@@ -160,6 +160,12 @@ def _build_func_identifier(func):
 # source code to check if a function definition has changed
 _FUNCTION_HASHES = weakref.WeakKeyDictionary()
 
+# Hash of the function that last wrote the code stored for a given function
+# identifier of a given store, in this process. The in-memory check of
+# _FUNCTION_HASHES is only valid for that function: another function sharing
+# the same identifier (e.g. a redefinition) may have replaced the stored code.
+_LAST_FUNC_CODE_WRITERS = {}
+
 
 ###############################################################################
 # class `MemorizedResult`
@@ -678,6 +684,9 @@ class MemorizedFunc(Logger):
             func_hash = self._hash_func()
             try:
                 _FUNCTION_HASHES[self.func] = func_hash
+                _LAST_FUNC_CODE_WRITERS[
+                    (self.store_backend.location, self.func_id)
+                ] = func_hash
             except TypeError:
                 # Some callable are not hashable
                 pass
@@ -697,7 +706,11 @@ class MemorizedFunc(Logger):
                 # hash. This is more likely to falsely change than have hash
                 # collisions, thus we are on the safe side.
                 func_hash = self._hash_func()
-                if func_hash == _FUNCTION_HASHES[self.func]:
+                if func_hash == _FUNCTION_HASHES[
+                    self.func
+                ] and func_hash == _LAST_FUNC_CODE_WRITERS.get(
+                    (self.store_backend.location, self.func_id)
+                ):
                     return True
         except TypeError:
             # Some callables are not hashable
